@@ -4,7 +4,7 @@
     classes and the XSD facets, all re-extracted from /repo on this run. *)
 From V.lib Require Import Prelude PyFloat PyVal.
 From V.model Require Import SimpleTypeLib.
-From V.proofs Require Import PyFloat_proofs SimpleTypeLib_proofs C11_instance C11_float_instance.
+From V.proofs Require Import PyFloat_proofs SimpleTypeLib_proofs C11_instance C11_float_instance C11_write_instance.
 From V.gen Require Import GenC11.
 
 Theorem C11_write_ok_sound : forall d t, write_ok d t = true ->
@@ -103,6 +103,47 @@ Theorem C11_W_TextFontScalePercent : forall v s,
   ST_TextFontScalePercentOrPercentString__to_xml v = Ok (PStr s) -> lex_ok (LInt 1000 100000) s = true.
 Proof. exact W_TextFontScalePercent. Qed.
 Print Assumptions C11_W_TextFontScalePercent.
+
+(** a:spcPts/@val: EMU in (0..20116800), centipoints out, always inside the facet 0..158400 *)
+Theorem C11_W_TextSpacingPoint : forall v s,
+  ST_TextSpacingPoint__to_xml v = Ok (PStr s) -> lex_ok (LInt 0 158400) s = true.
+Proof. exact W_TextSpacingPoint. Qed.
+Print Assumptions C11_W_TextSpacingPoint.
+
+(** xsd:double classes.  PARTIAL: str(float) is not modelled digit by digit, so the statement
+    is: what is written is the repr of float(value) and that float is finite (python would
+    print inf / nan otherwise, which xsd:double does not admit in that spelling).  Missing:
+    python repr of a finite binary64 is a valid xsd:double literal (trusted base; compared
+    through float(text) by the correspondence). *)
+Theorem C11_W_XsdDouble_partial : forall v s,
+  XsdDouble__to_xml v = Ok (PStr s) -> float_written v s.
+Proof. exact W_XsdDouble_partial. Qed.
+Print Assumptions C11_W_XsdDouble_partial.
+
+Theorem C11_W_AxisUnit_partial : forall v s,
+  ST_AxisUnit__to_xml v = Ok (PStr s) ->
+  float_written v s /\ py_le v (PFloat (Fin 0 0)) = Ok false.
+Proof. exact W_AxisUnit_partial. Qed.
+Print Assumptions C11_W_AxisUnit_partial.
+
+(** Rej for the xsd:double classes, for EVERY python value (an int beyond the range of a
+    double included: it used to leave through OverflowError, repaired in /repo) *)
+Theorem C11_Rej_XsdDouble : forall v e, XsdDouble__to_xml v = Err e -> e = TypeErr \/ e = ValueErr.
+Proof. exact Rej_XsdDouble. Qed.
+Print Assumptions C11_Rej_XsdDouble.
+
+Theorem C11_Rej_AxisUnit : forall v e, ST_AxisUnit__to_xml v = Err e -> e = TypeErr \/ e = ValueErr.
+Proof. exact Rej_AxisUnit. Qed.
+Print Assumptions C11_Rej_AxisUnit.
+
+(** the float validator shared by every float-typed class classifies every python value *)
+Theorem C11_float_validate_total : forall v,
+  match fclass v with
+  | Ok f => BaseFloatType__validate v = Ok PNone /\ py_float v = Ok (PFloat f) /\ f_is_finite f = true
+  | Err e => BaseFloatType__validate v = Err e /\ (e = TypeErr \/ e = ValueErr)
+  end.
+Proof. exact fvalidate_spec. Qed.
+Print Assumptions C11_float_validate_total.
 
 (** non-vacuity *)
 Example C11_ex_rows : (0 < length (filter (fun r => N.eqb (w_verdict r) 0) rows))%nat
